@@ -65,7 +65,7 @@ DEFAULT_WEIGHTS = {
     'add_server': 2, 'del_server': 2, 'replace_server': 3,
     'down': 4, 'up': 4, 'freeze': 2, 'blacklist': 2, 'unblacklist': 1,
     'renew': 2, 'group': 3, 'del_group': 1, 'alloc_update': 2, 'clock': 5,
-    'reload_cell': 1,
+    'reload_cell': 1, 'regroup': 1,
 }
 
 
@@ -482,6 +482,13 @@ class CellDriver:
             self.op_group(rng.choice(['g0', 'g1', 'g2']), rng.choice([0, 1, 2, 2, 3, 4, 6]))
         elif kind == 'del_group' and H.groups:
             self.op_del_group(rng.choice(sorted(H.groups)))
+        elif kind == 'regroup' and H.groups:
+            # two identity_groups events handled back to back: delete and re-create
+            name = rng.choice(sorted(H.groups))
+            old = H.groups[name]
+            self.op_del_group(name)
+            self.op_group(name, rng.choice([old, old, old + 1, max(0, old - 1), 4]))
+            return 'group'
         elif kind == 'alloc_update':
             key = self.gen_alloc_key()
             if key[1]:
